@@ -61,10 +61,15 @@ def run_shard(ctx):
             elif kind == 'percent':
                 _, x = gen_value(rng, d)
                 text = '[PERCENT:%s]' % canon_of_float(abs(x))
+                if rng.random() < 0.2:
+                    text = '%%5 - %%%s' % render_literal(canon_of_float(abs(x) + 6), sep)          # a negative percentage as the result of a subtraction
             elif kind == 'money':
                 code = rng.choice(codes)
                 _, x = gen_value(rng, lex.currencies()[code]['decimalDigits'])
                 text = '%s %s' % (render_literal(canon_of_float(abs(x)), sep), code)
+                if rng.random() < 0.25:
+                    # a negative amount (a debt) as the result of a subtraction
+                    text = '1 %s - %s %s' % (code, render_literal(canon_of_float(abs(x) + 2), sep), code)
             elif kind == 'duration':
                 text, _ = gen_run(rng, words)
             elif kind == 'time':
@@ -86,6 +91,8 @@ def run_shard(ctx):
                 u = rng.choice(units)
                 _, x = gen_value(rng, 2)
                 text = '[NUMBER:%s] %s' % (canon_of_float(abs(x)), rng.choice(u['spellings']))
+                if rng.random() < 0.2:
+                    text = '1 %s - %s %s' % (u['names'][0], render_literal(canon_of_float(abs(x) + 2), sep), u['names'][0])
             else:
                 n = rng.choice([0, 1, 255, 4096, 65535, 2**31 - 1, rng.randint(0, 2**31 - 1), 2**31, 2**32 - 1, 2**32, 2**40 + 5, 2**53, rng.randint(2**31, 2**53)])
                 if lang == 'en':
